@@ -28,7 +28,7 @@ struct L10 : Listener {
 }
 CaseResult runC10(const Case &c, RunCtx &ctx) {
     CaseResult r;
-    Interp in(ctx);
+    Interp in(ctx, "C10");
     L10 L(r); in.L = &L;
     in.run(c);
     r.counters["refused_calls"] = static_cast<long long>(L.refused);
